@@ -20,7 +20,8 @@ def hook_preconditions(ctx, scn, i, case):
             ctx.violation("C20:hook-called-with-empty", "validated_value('') called for field %s" % f["name"], case)
         if scn["format"] == "fixed" and arg != arg.strip():
             ctx.violation("C20:hook-unstripped", "validated_value(%r) called with padding blanks in fixed format" % arg, case)
-        if scn.get("allowed") == "33...126" and any(not (33 <= ord(c) <= 126) for c in arg):
+        lo_hi = {"33...126": (33, 126), "'a'...'z'": (97, 122), "'A'...'Z'": (65, 90)}.get(scn.get("allowed"))
+        if lo_hi is not None and any(not (lo_hi[0] <= ord(c) <= lo_hi[1]) for c in arg):
             ctx.violation("C20:hook-disallowed-character", "validated_value(%r) called with a disallowed character" % arg, case)
 
 
@@ -164,6 +165,9 @@ def run(ctx):
         nf = rnd.randint(1, 4)
         # in fixed-width data the range without the blank also refuses every padded cell (the hook must not see them)
         allowed = rnd.choice([None, None, "33...126"])
+        if fmt == "delimited" and rnd.random() < 0.25:
+            # ranges written with quoted characters; the two differ only in the case of the quoted letters
+            allowed = rnd.choice(["'a'...'z'", "'A'...'Z'"])
         fields = []
         for j in range(nf):
             length = rnd.choice(["", "", "2...4", "...3"])
@@ -187,6 +191,9 @@ def run(ctx):
                 runs.append({"kind": "R", "api": api, "mode": rnd.choice(["raise", "yield", "continue"]), "limit": rnd.choice([None, None, 0, 1, 2, 3, 5]),
                              "rows": table, "close": rnd.random() < 0.85, "stop": rnd.choice([None, None, None, 1, 2])})
             else:
+                if fmt == "delimited" and header >= 1 and table and table[0] and allowed is None and rnd.random() < 0.4:
+                    # a heading that spans two lines of the written file is still one header row
+                    table[0][0] = "two\nlines"
                 runs.append({"kind": "W", "rows": table, "close": rnd.random() < 0.85})
         scns.append({"format": fmt, "line": rnd.choice(["lf", "cr", "crlf", "any", "none"]), "allowed": allowed, "late_allowed": rnd.random() < 0.4, "fields": fields, "checks": checks, "header": header, "runs": runs})
     for scn, mruns, iruns in engine.run_scenarios(scns):
